@@ -259,7 +259,12 @@ def memo_sites(fi):
             if isinstance(a, _ast.Try) and any(h.type is not None and 'KeyError' in _un(h.type) for h in a.handlers) and any(contains(s, r) for s in a.body):
                 guarded = True
         if not guarded:
-            continue
+            # `if k not in C: C[k] = compute(..)` followed by an unconditional `return C[k]`: the same memoisation, filled on demand
+            fills = [a for a in fi.nodes(_ast.Assign) if isinstance(a.targets[0], _ast.Subscript) and _un(a.targets[0].value) == _un(cache) and _un(a.targets[0].slice) == _un(key) and
+                     any(isinstance(n, _ast.Compare) and len(n.ops) == 1 and isinstance(n.ops[0], (_ast.In, _ast.NotIn)) and _un(n.comparators[0]) == _un(cache)
+                         for if_, br in enclosing_ifs(fi, a) for n in _ast.walk(if_.test))]
+            if not fills:
+                continue
         key_names = {n.id for n in _ast.walk(key) if isinstance(n, _ast.Name)}
         # names the key is built from, one level of local definitions
         for nm in list(key_names):
